@@ -68,7 +68,13 @@ class FailingAsync(AsyncEventProcessor):
     def on_event(self, event: Any) -> None:
         self._hit(event)
 
+    suspends = False      # (set per case) the processor really awaits before it handles the event, as an exporter doing I/O does
+
     async def on_event_async(self, event: Any) -> None:
+        if FailingAsync.suspends:
+            import asyncio
+
+            await asyncio.sleep(0)
         self._hit(event)
 
     def _hit(self, event: Any) -> None:
@@ -144,14 +150,21 @@ class C13(Prop):
         gens = [lambda: gen.gen_dag_program(rng, max_nodes=5, depth=rng.choice([0, 1])), lambda: gen.gen_gated_cfg(rng),
                 lambda: gen.gen_loop_bounded(rng), lambda: gen.gen_failing_dag(rng), lambda: gen.gen_map_node(rng)]
         forced = 3
+        forced_await = 4      # whatever the seed: fan-outs under the async runner with an async processor that really suspends
         while True:
+            if forced_await:
+                forced_await -= 1
+                c = self._fanout(rng)
+                yield {"program": c["program"], "values": c["values"], "cfg": {}, "runner": "async", "flavour": "async", "awaits": True, "sample_seed": rng.randint(0, 10**6),
+                       "procKind": "plain", "warnErr": False, "excKind": "boom", "disp": {"n": rng.randint(1, 8), "procs": [self._rand_proc(rng) for _ in range(2)]}}
+                continue
             if forced or rng.random() < 0.1:
                 forced = max(0, forced - 1)
                 c = self._fanout(rng)
             else:
                 c = rng.choice(gens)()
             yield {"program": c["program"], "values": c["values"], "cfg": c.get("cfg", {}), "runner": rng.choice(["sync", "async"]),
-                   "flavour": rng.choice(["sync", "async"]), "sample_seed": rng.randint(0, 10**6),
+                   "flavour": rng.choice(["sync", "async"]), "awaits": rng.random() < 0.4, "sample_seed": rng.randint(0, 10**6),
                    "procKind": rng.choice(["plain", "plain", "equal", "unhashable", "sized"]), "warnErr": rng.random() < 0.3,
                    "excKind": rng.choice(list(EXC_KINDS)),
                    "disp": {"n": rng.randint(1, 8), "procs": [self._rand_proc(rng) for _ in range(rng.randint(1, 4))]}}
@@ -189,6 +202,7 @@ class C13(Prop):
 
     def impl(self, case: dict) -> Any:
         _EXC[0] = EXC_KINDS[case.get("excKind", "boom")]
+        FailingAsync.suspends = bool(case.get("awaits"))
         base = self._run(case, [])
         rec0 = impl.Recorder()
         ref = self._run(case, [rec0])
@@ -237,7 +251,11 @@ class C13(Prop):
             label = f"processor failing {r['kind']} {r['at']}"
             if r["core"] != obs["base"]:
                 return f"{label}: run outcome {r['core']} differs from the run without processors {obs['base']}"
-            if r["healthy_kinds"] != obs["ref_kinds"]:
+            # (a processor that really suspends changes the interleaving of concurrent nodes: the stream is then complete as a multiset of
+            #  events, its order across concurrent spans is the scheduler's)
+            same = sorted(r["healthy_kinds"]) == sorted(obs["ref_kinds"]) if (case.get("awaits") and case["runner"] == "async" and case["flavour"] == "async") \
+                else r["healthy_kinds"] == obs["ref_kinds"]
+            if not same:
                 return f"{label}: the healthy processor received {r['healthy_events']} events, the complete stream has {obs['m']}"
             # (a call rejected before it starts — also by a warning the process treats as an error — shuts nothing down: the reference is
             #  what a lone healthy processor sees on the same call)
